@@ -16,7 +16,7 @@ from . import harness as h
 class Stage:
     def __init__(self, name, mc=None, emit=None, driver=None, trace=None, scn_filter=None, nontrivial=None,
                  extra_scenarios=None, mc_workers=h.NCPU, drive_env=None, selftest=True, post_traces=None,
-                 drive_shards=h.NCPU, max_per_shard=8000, simulate=None):
+                 drive_shards=h.NCPU, max_per_shard=8000, simulate=None, deviations=None, sanity_events=()):
         self.name = name
         self.mc = mc                    # (module, cfg) model-checked with the property invariants
         self.emit = emit                # (module, cfg) printing <<"SCN", json>>
@@ -32,6 +32,8 @@ class Stage:
         self.drive_shards = drive_shards
         self.max_per_shard = max_per_shard
         self.simulate = simulate        # (module, cfg, 'num=..', depth) extra simulation run of the model
+        self.deviations = deviations or {}   # deviation name -> trace cfg with that named deviation switched on
+        self.sanity_events = set(sanity_events)  # events that cross-check the SPEC against Python itself (3.2)
 
 
 def _digest(x):
@@ -139,12 +141,31 @@ def run_stage(stage, tier, seed, out, replay_scenarios=None):
             out.nontrivial.add(_digest(t['scn']))
     for t in traces[:: max(1, ntr // 3)][:3]:
         out.samples.append({'stage': stage.name, 'scenario': t['scn'], 'events': t['ev'][:12]})
-    for i, matched in sorted(rejected):
-        if i >= ntr:
+    rej_real = [(i, m) for i, m in sorted(rejected) if i < ntr]
+    for i, matched in rej_real:
+        nxt = traces[i]['ev'][matched] if matched < len(traces[i]['ev']) else None
+        if nxt and nxt.get('ev') in stage.sanity_events:
+            raise h.Machinery('stage %s: spec-sanity event %s disagrees with the specification (a transcription error '
+                              'of the spec, not a finding): %s' % (stage.name, nxt.get('ev'), json.dumps(traces[i])[:1500]))
+    # second pass (DESIGN section 8): re-validate rejected traces with a LISTED known deviation switched on
+    explained = {}
+    listed = {f.get('deviation') for f in h.load_findings().get('known', []) if f.get('deviation')}
+    for name, cfg in stage.deviations.items():
+        if name not in listed or not rej_real:
             continue
+        todo = [(i, m) for i, m in rej_real if i not in explained]
+        rej2, st2 = h.validate(stage.trace[0], cfg, [traces[i] for i, _ in todo], max_per_shard=stage.max_per_shard)
+        still = {todo[k][0] for k, _ in rej2}
+        for i, _ in todo:
+            if i not in still:
+                explained[i] = name
+        out.states += st2['distinct']
+        out.transitions += st2['generated']
+    for i, matched in rej_real:
         t = traces[i]
         out.rejected.append({'stage': stage.name, 'scn': t['scn'], 'ev': t['ev'], 'matched': matched,
-                             'next': t['ev'][matched] if matched < len(t['ev']) else None})
+                             'next': t['ev'][matched] if matched < len(t['ev']) else None,
+                             'deviation': explained.get(i)})
     out.notes.append('%s: %d scenarios driven, %d traces validated by %s (%d TLC states), %d rejected' % (
         stage.name, len(scns), ntr, stage.trace[0], st['distinct'], len([1 for i, _ in rejected if i < ntr])))
 
@@ -158,7 +179,11 @@ def finish(prop, tier, seed, out, t0, rule, assumptions, exhaustive, extra_cov=N
         view = {'stage': r['stage'], 'scn': r['scn'], 'next': r['next'] or {}}
         hit = None
         for f in findings:
-            if h.match(f['pattern'], view):
+            if f.get('deviation'):
+                if r.get('deviation') == f['deviation']:
+                    hit = f
+                    break
+            elif h.match(f['pattern'], view):
                 hit = f
                 break
         if hit:
@@ -170,7 +195,7 @@ def finish(prop, tier, seed, out, t0, rule, assumptions, exhaustive, extra_cov=N
     seen = set()
     nviol = 0
     import shutil
-    shutil.rmtree(os.path.join(h.VERIF, 'replays', prop), ignore_errors=True)
+    shutil.rmtree(os.path.join(h.OUT, 'replays', prop), ignore_errors=True)
     for r in violations:
         key = _digest([r['stage'], r['scn']])
         if key in seen:
